@@ -66,8 +66,13 @@ def _case(draw):
                           st.binary(max_size=5)))
     neg = st.sampled_from(_NEG).map(lambda p: {"t": "str", "pattern": p})
     pat = regexgen.cheap_pattern_strategy(3).map(lambda p: {"t": "str", "pattern": regexgen.render(p)})
-    gen = specs.spec_strategy(depth=draw(st.sampled_from([0, 1, 2])), sat=True).map(_fix)
-    one = st.one_of(neg, neg, pat, gen, gen,
+    gen = specs.spec_strategy(depth=draw(st.sampled_from([0, 1, 2])), sat=True, derived=draw(st.booleans())).map(_fix)
+    big = 1.7976931348623157e308
+    wide = st.sampled_from([{"t": "float", "min": -big, "max": big, "order": ["min", "max"]},
+                            {"t": "float", "min": -1e308, "max": 1.5e308, "order": ["max", "min"]},
+                            {"t": "int", "min": -2 ** 70, "max": 2 ** 70, "order": ["min", "max"]},
+                            {"t": "float", "min": 0.0, "max": 1.0, "precision": 3, "order": ["min", "max", "precision"]}])
+    one = st.one_of(neg, neg, pat, gen, gen, wide,
                     st.builds(lambda a: {"t": "list", "form": "typed", "elem": a, "len": ["range", 2, 5]},
                               st.one_of(neg, pat)))
     return {"seed": seed, "specs": draw(st.lists(one, min_size=1, max_size=8))}
